@@ -197,7 +197,17 @@ def metaCase : P Verdict := do
                      else "C05: aliases of one type declare different identities (would get different ids)"]
   if !errs.isEmpty then return .specfail (" ;; ".intercalate errs)
   if eq != (identity a == identity b) then return .diff "model identity"
-  if info != 2 then
+  let rec hasAdt : TyExpr → Bool
+    | .adt _ _ => true
+    | .array _ t => hasAdt t | .tupleCons h r => hasAdt h || hasAdt r
+    | .slice t => hasAdt t | .vec t => hasAdt t | .vecDeque t => hasAdt t | .option t => hasAdt t
+    | .result t e => hasAdt t || hasAdt e | .box_ t => hasAdt t | .rc t => hasAdt t | .arc t => hasAdt t
+    | .ref_ t => hasAdt t | .refMut t => hasAdt t | .cow t => hasAdt t | .btreeMap k v => hasAdt k || hasAdt v
+    | .btreeSet t => hasAdt t | .binaryHeap t => hasAdt t | .compact t => hasAdt t | .range t => hasAdt t
+    | .rangeIncl t => hasAdt t | .phantom t => hasAdt t | .bitVec s o => hasAdt s || hasAdt o
+    | _ => false
+  -- definitions of user types are the derive stream's business: compare definitions for built-in expressions only
+  if info != 2 && !hasAdt a && !hasAdt b then
     let ma := (typeInfo false a).map (Ty.map identity)
     let mb := (typeInfo false b).map (Ty.map identity)
     if (ma == mb) != (info == 1) then return .diff "model type_info equality"
